@@ -19,6 +19,7 @@ package autodiff
 /* -------------------------------------------------------------------------- */
 
 import "bufio"
+import "fmt"
 import "io"
 import "math"
 import "os"
@@ -222,4 +223,26 @@ func bufioReadLine(reader *bufio.Reader) (string, error) {
   }
   // remove newline character
   return l[0:len(l)-1], err
+}
+
+/* -------------------------------------------------------------------------- */
+
+// Check the indices of a serialized sparse vector of length n: the
+// constructors panic on indices that are too large or appear twice,
+// and store negative ones
+func checkSparseIndices(indices []int, n int) error {
+  if n < 0 {
+    return fmt.Errorf("invalid sparse vector: negative length")
+  }
+  m := make(map[int]struct{}, len(indices))
+  for _, k := range indices {
+    if k < 0 || k >= n {
+      return fmt.Errorf("invalid sparse vector: index `%d' out of range", k)
+    }
+    if _, ok := m[k]; ok {
+      return fmt.Errorf("invalid sparse vector: index `%d' appeared multiple times", k)
+    }
+    m[k] = struct{}{}
+  }
+  return nil
 }
